@@ -192,6 +192,22 @@ func checkFastaRecords(c *Ctx, pc *ssa.Function, out *ssa.Parameter) {
 		}
 	})
 	sends := sendsOn(pc, out)
+	if text == "" {
+		// lines read with bufio.Reader.ReadString: the terminator has to be removed by hand, CR included
+		view.each(func(g *ssa.Function, i ssa.Instruction) {
+			cl, ok := i.(*ssa.Call)
+			if !ok || !(strings.HasPrefix(calleeName(cl), "strings.Trim")) || len(cl.Call.Args) != 2 {
+				return
+			}
+			t := view.T(g, cl)
+			if !t.contains(func(x *Term) bool { return x.isCall("(*bufio.Reader).ReadString") || x.isCall("(*bufio.Reader).ReadLine") || x.isCall("(*bufio.Reader).ReadBytes") }) {
+				return
+			}
+			if cs, ok := t.Args[1].constStr(); ok && strings.Contains(cs, "\n") && !strings.Contains(cs, "\r") {
+				c.bad("TERM", "line ends: CR LF and LF read alike", cl.Pos(), fmt.Sprintf("lines are read with ReadString and only %q is removed from their end: with CRLF input every name and sequence line keeps a trailing \"\\r\" and a blank \"\\r\" line is taken for sequence data (bufio.Scanner's ScanLines would strip it)", cs))
+			}
+		})
+	}
 	if text == "" || len(sends) == 0 {
 		c.undecided("TERM", "parser:records", pc.Pos(), "no bufio.Scanner line / no send found in ParseConcurrent")
 		return
